@@ -60,6 +60,30 @@ func init() {
 		p2.Name = proto.String("corpus/dep/dep2.proto")
 		neg("proto2-file-produces-no-output", "features=protoc+fast", p2, true, false, 0)
 		neg("file-not-requested-produces-no-output", "features=protoc+fast", small, false, false, 0)
+		// a feature named twice (directly or through "all") is applied once: the answer equals the one for the plain selection
+		same := func(name, paramA, paramB string) {
+			run := func(param string) (map[string]string, string, error) {
+				req := &pluginpb.CodeGeneratorRequest{Parameter: proto.String(param), FileToGenerate: []string{small.GetName()},
+					ProtoFile: topoFiles(map[string]*descriptorpb.FileDescriptorProto{small.GetName(): small}, []string{small.GetName()})}
+				return runPlugin(plugin, req)
+			}
+			fa, ea, ca := run(paramA)
+			fb, eb, cb := run(paramB)
+			ok := ca == nil && cb == nil && ea == "" && eb == "" && len(fa) == len(fb) && len(fa) > 0
+			for k, v := range fa {
+				if fb[k] != v {
+					ok = false
+				}
+			}
+			rep.Grounds = append(rep.Grounds, Ground{Name: "plugin/config/" + name, OK: ok, Text: fmt.Sprintf("parameter %q is answered exactly like %q (a feature selected twice is generated once)", paramA, paramB),
+				Detail: fmt.Sprintf("errors %q / %q, files %d / %d", ea, eb, len(fa), len(fb))})
+		}
+		same("all-plus-fast-equals-all", "features=all+fast", "features=all")
+		same("fast-named-twice", "features=fast+protoc+fast", "features=protoc+fast")
+		same("feature-order-is-irrelevant", "features=fast+protoc", "features=protoc+fast")
+		// what a file's generated code contains must not depend on the invocation it was generated in (one request per
+		// file is how protoc drives plugins for packages spread over directories): needed for "the output works"
+		rep.Grounds = append(rep.Grounds, independenceGrounds(plugin, false)...)
 		// type-check of everything generated (one scratch module)
 		if _, err := loadFreshTargets(rep); err != nil {
 			rep.Grounds = append(rep.Grounds, Ground{Name: "compile/fresh-module", OK: false, Text: "generated sources type-check", Detail: err.Error()})
